@@ -25,6 +25,7 @@ CONSTANTS
   ValOf,     \* [g -> value lines the call passes]
   UpdOf,     \* [g -> BOOLEAN] the call may update
   InitFile,  \* the shared file before the calls
+  NoCreate,  \* [g -> its Config forbids creating (Update(false)): a missing entry is a failure]
   Prog,      \* [kind -> Seq(primitive)] extracted from the code
   PrefixLen  \* length of the common read prefix
 
@@ -65,9 +66,11 @@ Done(g)   == out[g] # ""
 Cur(g)    == ProgOf(g)[pc[g]]
 
 \* branch decision from what the goroutine read
+\* (evaluated inside a step, on what the goroutine has read INCLUDING this very step: the read
+\* prefix may end with the read itself when the code takes no lock around it)
 Decide(g) ==
-  LET r == ReadEntry(seen[g], HdrG(g)) IN
-  IF ~r.found THEN "create"
+  LET r == ReadEntry(seen'[g], HdrG(g)) IN
+  IF ~r.found THEN (IF NoCreate[g] THEN "mismatch" ELSE "create")
   ELSE IF Unescape(r.body) = Unescape(Stored(g)) THEN "match"
   ELSE IF UpdOf[g] THEN "update" ELSE "mismatch"
 
